@@ -90,7 +90,7 @@ def lin_program(rng, *, dmax=2, lmax=2, mc_exact=False):
     polys = jets.gen_poly(rng, d, J, tdep=tdep, dout=d, max_terms=3, p_empty=0.0 if mc_exact else 0.05, elementwise=mc_exact)
     L = 0 if mc_exact else rng.randint(0, lmax)
     jeff = J + 1 if fromode else J
-    n = jeff + L + rng.choice([0, 0, 1])
+    n = jeff + L + (0 if mc_exact else rng.choice([0, 0, 1]))
     return dict(
         kind="lin",
         d=d,
@@ -397,10 +397,11 @@ def replay_lin(p, exp):
             rec.array(f"{kind}:constraint_ode_ts0", "damping", c0.noise.cholesky_flat, _layout(kind, exp["res"], "chol"), tol=1e-15)
         else:
             res = jets.make_residual(p["polys"], J, d)
-            if kind != "dense" and d > 1 and L == 0 and _elementwise_single_block(exp["res"], d):
-                # element-wise constraints of ONE Taylor coefficient with one output row: the stochastic trace / diagonal
-                # estimators are exact for ANY Rademacher probe (v_a J_aa v_a = J_aa; no cross terms between coefficient
-                # blocks or output rows), so the Monte-Carlo handlers must give the same affine model as the exact one
+            if kind != "dense" and d > 1 and L == 0 and len(tcoeffs) == 1 and _elementwise_single_block(exp["res"], d):
+                # element-wise constraints of a state with ONE Taylor coefficient and one output row: the stochastic trace /
+                # diagonal estimators are exact for ANY Rademacher probe (v_a J_aa v_a = J_aa); with several coefficient
+                # blocks in the state (forward mode) or several output rows (reverse mode) the probes of different blocks
+                # mix and the estimate is exact in expectation only (C17), so those programs are not used here
                 for hname, hctor in [("monte_carlo_fwd", lambda: pdq.jacobian_monte_carlo_fwd(seed=3, num_probes=2)), ("monte_carlo_rev", lambda: pdq.jacobian_monte_carlo_rev(seed=3, num_probes=2))]:
                     resh = jets.make_residual(p["polys"], J, d, JM=hctor)
                     site = f"constraint_residual(jet_lift)[{hname}]"
